@@ -102,7 +102,7 @@ class Gen:
 
     def doc(self):
         r = self.r
-        return dict(dyn=0, prio=1 if r.random() < 0.12 else 0, chanprio=r.randrange(1, 6) if r.random() < 0.15 else 0, vars=self.vars(), chans=self.chans(), templs=[self.templ(k) for k in range(r.randrange(1, 4))])
+        return dict(dyn=r.choice([1, 2, 3]) if r.random() < 0.12 else 0, prio=1 if r.random() < 0.12 else 0, chanprio=r.randrange(1, 6) if r.random() < 0.15 else 0, vars=self.vars(), chans=self.chans(), templs=[self.templ(k) for k in range(r.randrange(1, 4))])
 
 
 def side_txt(rng, s):
@@ -176,6 +176,11 @@ def render(d, rng):
         # a channel priority declaration of every shape, over two broadcast channels of its own (which restrict nothing themselves): with and without '<', with default
         glob += '\nbroadcast chan pa, pb; chan priority %s;' % {1: 'pa < pb', 2: 'default < pa', 3: 'pa, pb', 4: 'pa', 5: 'pa, default'}[d['chanprio']]
     tx = []
+    if d['dyn']:
+        # a dynamic template: only declared (1), declared and defined (2), or declared without parameters and defined (3); nothing spawns it
+        glob += '\ndynamic DT(%s);' % ('' if d['dyn'] == 3 else 'const int di')
+        if d['dyn'] >= 2:
+            tx.append('<template><name>DT</name>%s<location id="idd_0"/><init ref="idd_0"/></template>' % ('' if d['dyn'] == 3 else '<parameter>const int di</parameter>'))
     order = list(range(len(d['templs'])))
     rng.shuffle(order)
     for k in order:
@@ -224,7 +229,7 @@ def doc_sx(d):
     for t in d['templs']:
         es = ' '.join('(edge %s %s)' % ('(guard %s)' % g_sx(e['guard']) if e['guard'] is not None else '(none)', us(e['upds'])) for e in t['edges'])
         ts.append('(templ %d %s %s (invs %s) (edges %s))' % (t['inst'], vs(t['vars']), cs(t['chans']), ' '.join(g_sx(g) for g in t['invs']), es))
-    return '(doc %d %d %s %s (templs %s))' % (d['dyn'], 1 if (d['prio'] or d.get('chanprio')) else 0, vs(d['vars']), cs(d['chans']), ' '.join(ts))
+    return '(doc %d %d %s %s (templs %s))' % (1 if d['dyn'] else 0, 1 if (d['prio'] or d.get('chanprio')) else 0, vs(d['vars']), cs(d['chans']), ' '.join(ts))
 
 
 # ---- the specification, directly (mirrors Feature.v's spec_* predicates) ------------------------------------------
@@ -375,4 +380,4 @@ def check(run):
                         'accepted models only: implementation verdict vs extracted Coq model, and verdict vs the specification predicates',
                    samples=samples, targeted=ntarget, accepted_models=naccepted, rejected_models_out_of_scope=nrej, verdict_histogram=hist)
     run.cov['trusted_base'] += ['hand model Feature.v of featurechecker.cpp (tied by verdict correspondence)', 'the renderer from abstract documents to XML in tools/props/C17.py', 'Coq extraction, drv_feature.ml']
-    return run.finish('proof', assumptions=['dynamic templates are modelled (d_dynamic) but not generated', 'the abstraction of expressions to (uses_fp, uses_clock) flags is realised by a fixed set of representative expressions'])
+    return run.finish('proof', assumptions=['dynamic templates are declared (with and without a definition) but never spawned', 'the abstraction of expressions to (uses_fp, uses_clock) flags is realised by a fixed set of representative expressions'])
